@@ -359,6 +359,7 @@ def generate(path, outdir):
     lines = []
     lines.append(Line("#![allow(unused)]", "gen", "", 0))
     lines.append(Line("use vstd::prelude::*;", "gen", "", 0))
+    lines.append(Line("use std::collections::HashMap;", "gen", "", 0))
     lines.append(Line("verus! {", "gen", "", 0))
     logs = []
     pitems = []
